@@ -26,7 +26,7 @@ def putEvs (t : Nat) : List ((String × String × Option Nat) × Nat) → List (
 /-- one command of the PutMany loop: one SET = one complete Put -/
 theorem cmdStep_putLoop {s : St} {t : Nat} {k v : String} {e : Option Nat}
     {rest : List (String × String × Option Nat)} (hp : s.pc[t]? = some (.putLoop ((k, v, e) :: rest))) :
-    cmdStep s t = some ({ s with srv := (s.srv.write k v e).1, watch := touch s.watch [k] }.setPc t (loopNext rest),
+    cmdStep s t = some ({ s with srv := (s.psrv.setRec s.now k v e).1, watch := touch s.watch [rKey k] }.setPc t (loopNext rest),
       [.inv t (.op (.put k v e)), .lin t, .ret t (.okVer s.srv.nextVer)]) := by
   unfold cmdStep
   rw [hp]
@@ -135,7 +135,7 @@ theorem loop_run (t : Nat) : ∀ (es : List RedisConc.Ev) (s s' : St) (ls : List
         rw [cmdStep_putLoop hp] at hst
         simp only [Option.some.injEq, Prod.mk.injEq] at hst
         obtain ⟨rfl, rfl⟩ := hst
-        have hp1 : ({ s with srv := (s.srv.write k v e).1, watch := touch s.watch [k] }.setPc t (loopNext rest)).pc[t]?
+        have hp1 : ({ s with srv := (s.psrv.setRec s.now k v e).1, watch := touch s.watch [rKey k] }.setPc t (loopNext rest)).pc[t]?
             = some (loopNext rest) := by
           simp [St.setPc, hlt]
         have hcnt1 : es.count (.cmd t) = rest.length := by
